@@ -3,7 +3,7 @@
    Matcher.v (boundary matcher), Limits.v (limits / status codes), Link.v (generated-from-source leafs).
    Model: Defs.v (per-byte step of multipart_parser::consume, header parser, request-level driver
    on_content_start / on_content_progress, urlencoded splitter). *)
-From CppcmsV Require Import Base.Tac Base.CSem Base.Sweep C12.Defs C12.Proofs C12.Matcher C12.Limits C12.Roundtrip C12.Filter C12.Urlenc C12.Link gen.Gen_c12.
+From CppcmsV Require Import Base.Tac Base.CSem Base.Sweep C12.Defs C12.Proofs C12.Matcher C12.Limits C12.Roundtrip C12.Filter C12.Urlenc C12.Fuel C12.Framing C12.Link gen.Gen_c12.
 Local Open Scope N_scope.
 
 (* ------------------------------------------------------------------------------------------ *)
@@ -146,6 +146,32 @@ Theorem mime_normal_form_sufficient : forall ty sub, ty <> [] -> sub <> [] ->
 Proof. exact wf_mime_tokens. Qed.
 Print Assumptions mime_normal_form_sufficient.
 
+(* framing is exact whatever the part headers look like: for ANY header blocks whose terminator is recognised
+   exactly at their last byte and that process_header accepts (unquoted or quoted parameters, any case, extra
+   headers, any order ...) and any contents free of the delimiter, the entries delivered carry exactly those
+   contents and the meta data process_header computed - under every chunking *)
+Theorem framing_exact : forall L ct key ps chunks, ~ In 13 key -> key <> [] ->
+  ct_boundary ct = FOk key ->
+  Forall (raw_ok key) ps ->
+  Forall (fun p => size_ok (Some (content_length_limit L)) (raw_file p) = true) ps ->
+  concat chunks = encode_raw key ps ->
+  N.of_nat (length (encode_raw key ps)) <= multipart_limit L ->
+  request_multipart L ct (length (encode_raw key ps)) chunks = RReady (map raw_file ps).
+Proof. exact framing_exact_request. Qed.
+Print Assumptions framing_exact.
+Definition ex_raw_hdr : list N :=   (* lower/upper case names, unquoted and quoted values, an extra header, a Content-Type parameter *)
+  [99;111;110;116;101;110;116;45;100;105;115;112;111;115;105;116;105;111;110;58;102;111;114;109;45;100;97;116;97;59;78;65;77;69;61;97;59;70;105;108;101;78;97;109;101;61;34;98;92;34;99;34;13;10;88;45;67;117;115;116;111;109;58;32;113;13;10;67;79;78;84;69;78;84;45;84;89;80;69;58;32;84;101;120;116;47;80;108;97;105;110;59;32;99;104;97;114;115;101;116;61;120;13;10;13;10].
+Definition ex_raw : rawpart := mkraw ex_raw_hdr (mkfile [97] [98;34;99] [116;101;120;116;47;112;108;97;105;110] []) [13;10;45;45;13;13;10;45;45;107].
+Example framing_nonvacuous : raw_ok [107] ex_raw /\
+  request_multipart (mklim 100 1000) ex_ct (length (encode_raw [107] [ex_raw])) (map (fun c => [c]) (encode_raw [107] [ex_raw]))
+  = RReady [mkfile [97] [98;34;99] [116;101;120;116;47;112;108;97;105;110] (rev [13;10;45;45;13;13;10;45;45;107])].
+Proof.
+  split; [|vm_compute; reflexivity].
+  split; [exists (removelast ex_raw_hdr); split; vm_compute; reflexivity|].
+  split; [vm_compute; reflexivity|].
+  intros Ho. apply containsb_spec in Ho. vm_compute in Ho. discriminate.
+Qed.
+
 (* the same at parser level (any limit, including none) *)
 Theorem parser_decode_encode : forall key lim ps, ~ In 13 key ->
   Forall (wf_part key) ps -> Forall (fun p => size_ok lim (file_of_part p) = true) ps ->
@@ -262,9 +288,31 @@ Theorem file_or_small_field_accepted : forall key a, ~ In 13 key -> forall s x r
 Proof. exact within_limit_continues. Qed.
 Print Assumptions file_or_small_field_accepted.
 
-Theorem refusal_codes : forall bnd lim ch s c, feed bnd lim s ch = OStop c -> c = 400 \/ c = 413 \/ c = 599.
-Proof. exact feed_status. Qed.
+(* the parser refuses with 400 or 413 only, and a whole multipart request ends as: entries delivered, 400,
+   413, or still waiting for input.  In particular the fuel markers of the model (FFuel, SFuel, 599) are
+   unreachable: the fuel S (length input) handed to the three fuelled loops always suffices *)
+Theorem refusal_codes : forall bnd lim ch s c, feed bnd lim s ch = OStop c -> c = 400 \/ c = 413.
+Proof. exact feed_status_exact. Qed.
 Print Assumptions refusal_codes.
+Theorem request_outcomes_400_413 : forall L ct declared chunks,
+  match request_multipart L ct declared chunks with
+  | RReady _ => True
+  | RStatus c => c = 400 \/ c = 413
+  | RWaiting => True
+  end.
+Proof. exact request_outcomes. Qed.
+Print Assumptions request_outcomes_400_413.
+Theorem fuel_always_suffices :
+  (forall bnd s c last, step bnd s c last <> SFuel) /\
+  (forall ct, ct_boundary ct <> FFuel /\ ct_boundary ct <> FFail) /\
+  (forall n hdr f, (length hdr < n)%nat -> process_header n hdr f <> FFuel) /\
+  (forall n s f, (length s < n)%nat -> parse_cd n s f <> FFuel) /\
+  (forall n s, (length s < n)%nat -> ct_params n s <> FFuel).
+Proof.
+  split; [exact step_no_fuel|]. split; [exact ct_boundary_no_fuel|]. split; [exact process_header_fuel|].
+  split; [exact parse_cd_fuel|exact ct_params_fuel].
+Qed.
+Print Assumptions fuel_always_suffices.
 
 Example limits_nonvacuous :
   request_multipart (mklim 3 1000) ex_ct (length ex_body) [ex_body] = RStatus 413 /\       (* field of 4 bytes, limit 3 *)
